@@ -57,6 +57,9 @@
 #define THREAD_NAME NULL
 #endif
 
+/* a pboolean argument with the given truth value: ANY int whose truthiness is `want` (pboolean is a plain int;
+ * every non-zero value is a legitimate TRUE, e.g. `flags & 4` or -1) */
+static pboolean nd_pbool(_Bool want) { int v = ND_INT(); VASSUME((v != 0) == want); return (pboolean) v; }
 extern void p_uthread_init(void);
 extern void p_uthread_shutdown(void);
 
@@ -178,7 +181,7 @@ static void do_create(int i) {
   is_joinable[i] = (i == 0) ? JOINABLE_A : JOINABLE_B;   /* concrete per query: a symbolic flag would make create's
                                                            * error exits (and with them the handle pointer) symbolic */
   te_next_slot = i + 1;
-  PUThread *t = p_uthread_create(thr_main, &wrote[i], is_joinable[i] ? TRUE : FALSE, THREAD_NAME);
+  PUThread *t = p_uthread_create(thr_main, &wrote[i], nd_pbool(is_joinable[i]), THREAD_NAME);
   VASSERT(t != NULL, "create succeeds when nothing fails");
   h[i] = t; created[i] = 1; main_refs[i] = 1; lib_key_used = 1;
 }
